@@ -357,7 +357,7 @@ func writeEvidence(verif, prop, tier string, seed int64, w *World, results []*Ha
 			"functions_encoded_with_symbolic_data": fl,
 			"ssa_functions_loaded":                 w.nFuncs,
 			"ssa_instructions_executed":            steps,
-			"solver":                               map[string]any{"backend": cfg.Solver, "queries": globalSolverStats.Queries, "sat": globalSolverStats.Sat, "unsat": globalSolverStats.Unsat, "unknown": globalSolverStats.Unknown, "errors": globalSolverStats.Errors, "solver_time_s": float64(globalSolverStats.NanosSum) / 1e9, "per_query_timeout_ms": cfg.TimeoutMs},
+			"solver":                               map[string]any{"backend": cfg.Solver, "queries": globalSolverStats.Queries, "sat": globalSolverStats.Sat, "unsat": globalSolverStats.Unsat, "unknown": globalSolverStats.Unknown, "fallback_backend": fallbackKind(cfg.Solver), "fallback_asked": globalSolverStats.FallbackAsked, "fallback_decided": globalSolverStats.FallbackDecided, "errors": globalSolverStats.Errors, "solver_time_s": float64(globalSolverStats.NanosSum) / 1e9, "per_query_timeout_ms": cfg.TimeoutMs},
 			"native_replays":                       map[string]any{"run": rep.total, "agree": rep.agree, "disagree": rep.disagree, "detail": rep.summary},
 			"known_finding_hits":                   knownHits,
 			"inconclusive":                         inconclusive,
